@@ -11,6 +11,7 @@ import {
   IDiffEntry,
   IDiffObjectEntry,
   IDiffPatch,
+  opAdd,
   opRemove,
   opReplace,
   opRemoveRange,
@@ -499,7 +500,14 @@ function resolveAction(base: any, decision: MergeDecision): IDiffEntry[] {
       }
     }
     if (key) {
-      let d = opReplace(key, makeClearedValue(base[key]));
+      let d: IDiffObjectEntry;
+      if (Object.prototype.hasOwnProperty.call(base, key)) {
+        d = opReplace(key, makeClearedValue(base[key]));
+      } else {
+        // Both sides add the key with different values: add the cleared value
+        let added = _combineDiffs(decision.localDiff, decision.remoteDiff)[0];
+        d = opAdd(key, makeClearedValue((added as any).value));
+      }
       d.source = { decision, action: 'custom' };
       return [d];
     } else {
